@@ -19,7 +19,7 @@ import sys
 import time
 
 from vf import canon, mlib
-from vf.worker import exc_sig
+from vf.worker import exc_sig, safe_garbage
 
 LEVEL = "fault_enumeration"
 RULE = ("histories of length 3-12 (thorough: up to 40) over 4-6 texts (valid libraries/models and syntactically "
@@ -58,6 +58,24 @@ def make_texts(rng):
         g = mlib.LibGen(rng, "flatten")
         lib = g.build()
         out.append((mlib.print_library(lib) + "\n// text %d %d\n" % (i, rng.randint(0, 10 ** 6)), True))
+    # near-duplicates: valid texts that differ from another text of the history only in a detail a careless cache
+    # key could ignore (blanks / line-break kind inside a string literal, letter case of an identifier, a digit)
+    base = rng.choice([t for t, _ in out])
+    k = base.find("model ")
+    if k >= 0:
+        e = base.find("\n", k)
+        head, tail = base[:e], base[e:]
+        kind = rng.choice(["string-trailing-blanks", "string-crlf", "identifier-case", "string-tab-vs-spaces"])
+        if kind == "string-trailing-blanks":
+            pair = (head + ' "first line\n second line"' + tail, head + ' "first line  \n second line"' + tail)
+        elif kind == "string-crlf":
+            pair = (head + ' "first line\n second line"' + tail, head + ' "first line\r\n second line"' + tail)
+        elif kind == "string-tab-vs-spaces":
+            pair = (head + ' "a\tb"' + tail, head + ' "a b"' + tail)
+        else:
+            pair = (base + "\nmodel CaseVariant Real qx; equation qx = 1; end CaseVariant;\n",
+                    base + "\nmodel CaseVariant Real qX; equation qX = 1; end CaseVariant;\n")
+        out += [(pair[0], True), (pair[1], True)]
     valid = [t for t, _ in out]
     for i in range(rng.randint(1, 2)):
         t = rng.choice(valid)
@@ -181,7 +199,8 @@ class World:
     def op_corrupt_entry(self):
         if not os.path.exists(self.db) or self.file_corrupt:
             return
-        kind = self.r.choice(["empty", "truncated", "random", "missing-class"])
+        kind = self.r.choice(["empty", "truncated", "random", "missing-class", "null", "text", "frame-length-overflow",
+                              "opcode-on-wrong-object", "bad-int-literal", "unknown-extension-code"])
         try:
             c = self.raw()
             rows = c.execute("SELECT txt_hash, pymoca_version, data FROM models").fetchall()
@@ -194,7 +213,19 @@ class World:
             elif kind == "truncated":
                 blob = bytes(data[: max(1, len(data) // 2)])
             elif kind == "random":
-                blob = bytes(self.r.randrange(256) for _ in range(64))
+                blob = safe_garbage(self.r, 64)
+            elif kind == "null":
+                blob = None
+            elif kind == "text":
+                blob = "not a blob"
+            elif kind == "frame-length-overflow":
+                blob = b"\x80\x04\x95" + b"\xff" * 8 + b"N."
+            elif kind == "opcode-on-wrong-object":
+                blob = self.r.choice([b"\x80\x04NNNs.", b"\x80\x04NNR."])
+            elif kind == "bad-int-literal":
+                blob = b"I12x\n."
+            elif kind == "unknown-extension-code":
+                blob = b"\x82\x07."
             else:
                 blob = missing_class_pickle()
             try:
@@ -313,7 +344,7 @@ class World:
             self.ctx.monitor("db_row_checks")
             if h in broken:
                 return ("failed-parse-stored", "the database holds a row for a text that has a syntax error")
-            if isinstance(data, (bytes, memoryview)) and bytes(data) in self.bad_blobs:
+            if data is None or isinstance(data, str) or bytes(data) in self.bad_blobs:
                 continue
             try:
                 obj = pickle.loads(data)
